@@ -1033,10 +1033,11 @@ impl SetU32 {
                     let had_zero = p_remove(s.bits, a, 0);
                     // One draw, then scan upward to the first value that is usable:
                     // redrawing could loop forever when the generator is a pure
-                    // function of its arguments, and at most `cap + 33` values
-                    // are unusable.
+                    // function of its arguments, and at most `cap + 34` values
+                    // are unusable (the old placeholder `e` among them: it is
+                    // about to become a member).
                     let mut i: u32 = crate::rand::rand32(s.cap, s.bits);
-                    while i <= 32 || a.iter().any(|&v| v == i) {
+                    while i <= 32 || i == e || a.iter().any(|&v| v == i) {
                         i = i.wrapping_add(1);
                     }
                     s.bits = i;
